@@ -131,7 +131,7 @@ def ser_stream(st, transform=None):
 class Revision:
     def __init__(self, objects, form="table", objstm=(), free=(), eol=b"\n", root=None, info=None,
                  trailer_extra=None, gens=None, xref_w=(1, 4, 2), split_index=False, objstm_id=None, xref_id=None,
-                 pad_before=b"", omit_index=False):
+                 pad_before=b"", omit_index=False, trailer_style=0):
         self.objects = dict(objects)          # objid -> value
         self.form = form                      # 'table' | 'stream' | 'hybrid'
         self.objstm = list(objstm)            # objids stored in this revision's object stream (not for 'table')
@@ -146,6 +146,7 @@ class Revision:
         self.objstm_id = objstm_id
         self.xref_id = xref_id
         self.pad_before = pad_before
+        self.trailer_style = trailer_style    # table: 0 `trailer` EOL dict; 1 `trailer <<...>>` on one line; 2 `trailer <<` EOL entries EOL `>>`
         self.omit_index = omit_index          # xref stream: leave /Index out when it equals the default [0 Size]
 
 
@@ -284,7 +285,13 @@ def build(revisions, header=b"%PDF-1.7\n%\xe2\xe3\xcf\xd3\n", transform_for=None
             trailer["Size"] = maxid + 1
             if xstm_pos is not None:
                 trailer["XRefStm"] = xstm_pos
-            out += b"trailer" + E + ser(trailer) + E
+            td = ser(trailer)
+            if rev.trailer_style == 1:
+                out += b"trailer " + td + E
+            elif rev.trailer_style == 2:
+                out += b"trailer <<" + E + td[2:-2].strip() + E + b">>" + E
+            else:
+                out += b"trailer" + E + td + E
         sx = xpos if startxref_override is None else startxref_override
         out += b"startxref" + E + b"%d" % sx + E + b"%%EOF" + (E if final_eol else b"")
         prev = xpos
